@@ -59,6 +59,24 @@ Section DictFacts.
         exfalso. rewrite (eq_sym_b _ EK k k') in H1.
         rewrite (eq_trans_b _ EK k0 k' k H2 H1) in H0. discriminate.
   Qed.
+  Lemma dget_dupd : forall (m : dict K A) k v k',
+    dget keq (dupd keq m k v) k' =
+    match dget keq m k with Some _ => if keq k k' then Some v else dget keq m k' | None => dget keq m k' end.
+  Proof.
+    induction m as [|[k0 v0] t IH]; intros k v k'; cbn; [reflexivity|].
+    destruct (keq k0 k) eqn:H0; cbn.
+    - rewrite (eq_trans_f keq EK k0 k k' H0). destruct (keq k k'); reflexivity.
+    - rewrite IH. destruct (keq k0 k') eqn:H2.
+      + destruct (dget keq t k); [|reflexivity]. destruct (keq k k') eqn:H1; [|reflexivity].
+        exfalso. rewrite (eq_sym_b _ EK k k') in H1. rewrite (eq_trans_b _ EK k0 k' k H2 H1) in H0. discriminate.
+      + reflexivity.
+  Qed.
+
+  Lemma dupd_same : forall (m : dict K A) k v, dget keq m k = Some v -> dupd keq m k v = m.
+  Proof.
+    induction m as [|[k0 v0] t IH]; intros k v H; cbn in *; [reflexivity|].
+    destruct (keq k0 k); [inversion H; reflexivity|]. now rewrite IH.
+  Qed.
 End DictFacts.
 
 Section ListFacts.
@@ -218,6 +236,37 @@ Section BinFacts.
     - intros k. unfold has_key. rewrite (dget_dset keq EK). destruct (keq key k); reflexivity.
   Qed.
 
+  Lemma upd_bin_facts : forall kd (m : D) key (b0 b1 : bin A),
+    wf kd m -> dget keq m key = Some b0 -> nodup_eq aeq (items b1) ->
+    (is_single kd = true -> exists s, items b1 = [s]) ->
+    let m1 := dupd keq m key b1 in
+    wf kd m1 /\
+    (forall k a, rel m1 k a = if keq key k then memb aeq a (items b1) else rel m k a) /\
+    (forall k, has_key m1 k = has_key m k).
+  Proof.
+    intros kd m key b0 b1 [Wn [Ws Wh]] G Hn Hs m1. unfold m1.
+    assert (Hg : forall k, dget keq (dupd keq m key b1) k = if keq key k then Some b1 else dget keq m k).
+    { intros k. rewrite (dget_dupd keq EK), G. reflexivity. }
+    split; [split; [|split]|split].
+    - intros k. unfold items_of. rewrite Hg. destruct (keq key k); [exact Hn|apply Wn].
+    - intros Hsg k b Hb. rewrite Hg in Hb. destruct (keq key k).
+      + inversion Hb; subst. auto.
+      + eapply Ws; eauto.
+    - intros k Hb. unfold has_key in *. rewrite Hg in Hb. destruct (keq key k) eqn:E.
+      + apply Wh. unfold has_key. rewrite <- (dget_congr keq EK m key k E), G. reflexivity.
+      + apply Wh. exact Hb.
+    - intros k a. unfold rel, items_of. rewrite Hg. destruct (keq key k); reflexivity.
+    - intros k. unfold has_key. rewrite Hg. destruct (keq key k) eqn:E; [|reflexivity].
+      rewrite <- (dget_congr keq EK m key k E), G. reflexivity.
+  Qed.
+
+  Lemma soc_dupd_one : forall (m : D) k v, stable_or_cleared m (dupd keq m k (mkBin v [])).
+  Proof.
+    intros m k v k'. unfold cache_of, items_of. rewrite (dget_dupd keq EK).
+    destruct (dget keq m k); [|left; split; reflexivity].
+    destruct (keq k k'); [right; reflexivity|left; split; reflexivity].
+  Qed.
+
   Lemma del_facts : forall kd (m : D) key,
     wf kd m ->
     let m1 := ddel keq m key in
@@ -333,7 +382,7 @@ Section BinFacts.
                     else match dget keq m key with
                          | None => AOk (dset keq m key (one value)) None (Some value)
                          | Some b => if memb aeq value (items b) then AOk m None None
-                                     else AOk (dset keq m key (mkBin (items b ++ [value]) [])) None (Some value)
+                                     else AOk (dupd keq m key (mkBin (items b ++ [value]) [])) None (Some value)
                          end) = AOk m' rem add).
       { destruct kd; try discriminate; exact H. }
       clear H.
@@ -357,14 +406,17 @@ Section BinFacts.
           -- intros _. split; [reflexivity|]. rewrite (rel_of_dget_some m' key b value Hg). exact Hmem.
         * assert (Hnd : nodup_eq aeq (items b ++ [value])).
           { apply nodup_app1; auto. specialize (Wn key). unfold items_of in Wn. now rewrite Hg in Wn. }
-          destruct (set_bin_facts kd m key (mkBin (items b ++ [value]) []) W Hk Hnd) as [F1 [F2 F3]].
+          destruct (upd_bin_facts kd m key b (mkBin (items b ++ [value]) []) W Hg Hnd) as [F1 [F2 F3a]].
           { rewrite Hsg. discriminate. }
-          assert (F2' : forall k a, rel (dset keq m key (mkBin (items b ++ [value]) [])) k a =
+          assert (F3 : forall k, has_key (dupd keq m key (mkBin (items b ++ [value]) [])) k = keq key k || has_key m k).
+          { intros k. rewrite F3a. destruct (keq key k) eqn:E; [|reflexivity]. cbn.
+            unfold has_key. rewrite <- (dget_congr keq EK m key k E), Hg. reflexivity. }
+          assert (F2' : forall k a, rel (dupd keq m key (mkBin (items b ++ [value]) [])) k a =
              if keq key k then (aeq value a || (negb (is_single kd) && rel m key a)) else rel m k a).
           { intros k a. rewrite F2. destruct (keq key k); [|reflexivity]. cbn [items].
             rewrite (memb_app aeq), Hsg, (rel_of_dget_some m key b a Hg). cbn.
             destruct (aeq value a); cbn; [now rewrite orb_true_r|now rewrite orb_false_r]. }
-          assert (F4 := soc_dset_one m key (items b ++ [value])).
+          assert (F4 := soc_dupd_one m key (items b ++ [value])).
           post_split F1 F2' F3 F4 Hk; auto; try discriminate; try (intros; congruence).
           -- intros _ _. rewrite (rel_of_dget_some m key b value Hg). exact Hmem.
       + inversion Hc; subst; clear Hc.
@@ -423,26 +475,32 @@ Section BinFacts.
         now destruct (aeq value a).
       + apply Hsame; auto. rewrite Hrel. exact Hsv.
     - destruct (hashes_values kd && negb (ahash value)); [discriminate|].
-      destruct (memb aeq value (items b)) eqn:Hmem.
-      2:{ inversion H; subst. apply Hsame; auto. erewrite rel_of_dget_some by exact Hg. exact Hmem. }
       assert (Hnd : nodup_eq aeq (items b)).
       { specialize (Wn key). unfold items_of in Wn. now rewrite Hg in Wn. }
-      destruct (remove_first aeq value (items b)) as [|x it] eqn:Hrf.
-      + inversion H; subst; clear H. destruct (del_facts kd m key W) as [F1 [F2 F3]].
-        split; [exact F1|split; [|split; [reflexivity|apply soc_ddel]]].
-        intros k a. rewrite F2. destruct (keq key k) eqn:E; cbn; [|now rewrite andb_true_r].
-        rewrite <- (rel_congr_k m key k a E), (rel_of_dget_some m key b a Hg).
-        pose proof (memb_remove_first aeq EA (items b) value a Hnd) as Hr. rewrite Hrf in Hr. cbn in Hr.
-        now rewrite <- Hr.
-      + inversion H; subst; clear H.
-        assert (Hnd2 : nodup_eq aeq (items (mkBin (x :: it) (@nil (sortspec * list A))))).
-        { cbn [items]. rewrite <- Hrf. apply nodup_remove_first; auto. }
-        destruct (set_bin_facts kd m key (mkBin (x :: it) []) W Hk Hnd2) as [F1 [F2 F3]].
-        { rewrite Hsg. discriminate. }
-        split; [exact F1|split; [|split; [reflexivity|apply soc_dset_one]]].
-        intros k a. rewrite F2. destruct (keq key k) eqn:E; cbn [items andb]; [|now rewrite andb_true_r].
-        rewrite <- (rel_congr_k m key k a E), (rel_of_dget_some m key b a Hg), <- Hrf.
-        apply memb_remove_first; auto.
+      destruct (memb aeq value (items b)) eqn:Hmem.
+      + destruct (remove_first aeq value (items b)) as [|x it] eqn:Hrf.
+        * inversion H; subst; clear H. destruct (del_facts kd m key W) as [F1 [F2 F3]].
+          split; [exact F1|split; [|split; [reflexivity|apply soc_ddel]]].
+          intros k a. rewrite F2. destruct (keq key k) eqn:E; cbn; [|now rewrite andb_true_r].
+          rewrite <- (rel_congr_k m key k a E), (rel_of_dget_some m key b a Hg).
+          pose proof (memb_remove_first aeq EA (items b) value a Hnd) as Hr. rewrite Hrf in Hr. cbn in Hr.
+          now rewrite <- Hr.
+        * inversion H; subst; clear H.
+          assert (Hnd2 : nodup_eq aeq (items (mkBin (x :: it) (@nil (sortspec * list A))))).
+          { cbn [items]. rewrite <- Hrf. apply nodup_remove_first; auto. }
+          destruct (upd_bin_facts kd m key b (mkBin (x :: it) []) W Hg Hnd2) as [F1 [F2 F3]].
+          { rewrite Hsg. discriminate. }
+          split; [exact F1|split; [|split; [reflexivity|apply soc_dupd_one]]].
+          intros k a. rewrite F2. destruct (keq key k) eqn:E; cbn [items andb]; [|now rewrite andb_true_r].
+          rewrite <- (rel_congr_k m key k a E), (rel_of_dget_some m key b a Hg), <- Hrf.
+          apply memb_remove_first; auto.
+      + destruct (items b) as [|y its] eqn:Hit.
+        * (* an empty container is deleted *)
+          inversion H; subst; clear H. destruct (del_facts kd m key W) as [F1 [F2 F3]].
+          split; [exact F1|split; [|split; [reflexivity|apply soc_ddel]]].
+          intros k a. rewrite F2. destruct (keq key k) eqn:E; cbn; [|now rewrite andb_true_r].
+          rewrite <- (rel_congr_k m key k a E), (rel_of_dget_some m key b a Hg), Hit. reflexivity.
+        * inversion H; subst. apply Hsame; auto. erewrite rel_of_dget_some by exact Hg. rewrite Hit. exact Hmem.
   Qed.
 
   Lemma remove_item_raise : forall kd (m : D) key value,
@@ -456,13 +514,13 @@ Section BinFacts.
     - destruct (items b); [discriminate|]. destruct (aeq a value); discriminate.
     - destruct (hashes_values kd); cbn in H.
       + destruct (ahash value); cbn in H; [|auto].
-        destruct (memb aeq value (items b)); [destruct (remove_first aeq value (items b))|]; discriminate.
-      + destruct (memb aeq value (items b)); [destruct (remove_first aeq value (items b))|]; discriminate.
+        destruct (if memb aeq value (items b) then remove_first aeq value (items b) else items b); discriminate.
+      + destruct (if memb aeq value (items b) then remove_first aeq value (items b) else items b); discriminate.
   Qed.
 
   Lemma remove_key_spec : forall kd (m : D) key m' removed,
     wf kd m ->
-    remove_key keq khash m key = Some (m', removed) ->
+    remove_key keq khash kd m key = Some (m', removed) ->
     wf kd m' /\
     (forall k a, rel m' k a = rel m k a && negb (keq key k)) /\
     removed = items_of keq m key /\ stable_or_cleared m m'.
@@ -475,14 +533,17 @@ Section BinFacts.
       assert (H' : (if negb (khash key) then None else
                      match dget keq m key with
                      | None => Some (m, [])
-                     | Some b => Some (ddel keq m key, items b) end) = Some (m', removed)).
+                     | Some b => Some (ddel keq m key,
+                                       if is_single kd then match items b with s :: _ => [s] | [] => [] end else items b)
+                     end) = Some (m', removed)).
       { exact H. }
       clear H. destruct (khash key); cbn [negb] in H'; [|discriminate].
       destruct (dget keq m key) as [b|] eqn:Hg; inversion H'; subst; clear H'.
       + destruct (del_facts kd m key W) as [F1 [F2 F3]].
         split; [exact F1|split; [|split; [|apply soc_ddel]]].
         * intros k a. rewrite F2. destruct (keq key k); cbn; [now rewrite andb_false_r|now rewrite andb_true_r].
-        * unfold items_of. now rewrite Hg.
+        * unfold items_of. rewrite Hg. destruct (is_single kd) eqn:Hs; [|reflexivity].
+          destruct W as [_ [Ws _]]. destruct (Ws Hs key b Hg) as [s0 E]. now rewrite E.
       + split; [exact W|split; [|split; [|apply soc_refl]]].
         * intros k a. destruct (keq key k) eqn:E; cbn; [|now rewrite andb_true_r].
           rewrite andb_false_r, <- (rel_congr_k m' key k a E). apply (rel_of_dget_none m' key a Hg).
@@ -532,7 +593,7 @@ Section TwoWayFacts.
   Proof.
     intros m l r W Hl Hr. unfold rm_fwd.
     destruct (remove_item leq req lhash rhash rk m l r) as [m'|] eqn:E.
-    - destruct (remove_item_spec leq req lhash rhash EL ER HLH rk m l r m' W E) as [F1 [F2 [F3 F4]]].
+    - destruct (remove_item_spec leq req lhash rhash EL ER rk m l r m' W E) as [F1 [F2 [F3 F4]]].
       exists m'. auto.
     - apply remove_item_raise in E. destruct E as [E|[E1 E]]; [congruence|]. rewrite (Hr E1) in E. discriminate.
   Qed.
@@ -546,39 +607,41 @@ Section TwoWayFacts.
   Proof.
     intros m r l W Hl Hr. unfold rm_bwd.
     destruct (remove_item req leq rhash lhash lk m r l) as [m'|] eqn:E.
-    - destruct (remove_item_spec req leq rhash lhash ER EL HRH lk m r l m' W E) as [F1 [F2 [F3 F4]]].
+    - destruct (remove_item_spec req leq rhash lhash ER EL lk m r l m' W E) as [F1 [F2 [F3 F4]]].
       exists m'. auto.
     - apply remove_item_raise in E. destruct E as [E|[E1 E]]; [congruence|]. rewrite (Hl E1) in E. discriminate.
   Qed.
-  (* the except-branch of insert restores the forward relation *)
-  Lemma insert_rollback : forall m left right fwd1 rrem radd,
-    wf leq req lhash rk m ->
-    add_post leq req lhash rhash rk m left right fwd1 rrem radd ->
-    let fwd2 := match radd with Some a => fst (rm_fwd leq req lhash rhash rk fwd1 left a) | None => fwd1 end in
-    let fwd3 := match rrem with
-                | Some a => match add_item leq req lhash rhash lfmt rk fwd2 left a with
-                            | AOk m' _ _ => m' | ARaise _ => fwd2 end
-                | None => fwd2 end in
-    wf leq req lhash rk fwd3 /\ (forall k a, rel leq req fwd3 k a = rel leq req m k a) /\
-    stable_or_cleared leq m fwd3.
+  Lemma rm_fwd_some : forall m l r m', rm_fwd leq req lhash rhash rk m l r = (m', true) ->
+    remove_item leq req lhash rhash rk m l r = Some m'.
   Proof.
-    intros m left right fwd1 rrem radd W [W1 [R1 [K1 [Hl [Hhv [Rm1 [Rn1 [Ad1 [An1 [Ann1 S1]]]]]]]]]] fwd2 fwd3.
+    intros m l r m' H. unfold rm_fwd in H. destruct (remove_item leq req lhash rhash rk m l r); inversion H; reflexivity.
+  Qed.
+
+  (* the except-branch of insert restores the forward relation and re-raises the same exception *)
+  Lemma insert_rollback : forall t left right fwd1 rrem radd e,
+    wf leq req lhash rk (fwd t) ->
+    add_post leq req lhash rhash rk (fwd t) left right fwd1 rrem radd ->
+    exists fwd3, tw_rollback leq req lhash rhash lfmt rk t fwd1 left rrem radd e = (mkTwm fwd3 (bwd t), Raise e) /\
+      wf leq req lhash rk fwd3 /\ (forall k a, rel leq req fwd3 k a = rel leq req (fwd t) k a) /\
+      stable_or_cleared leq (fwd t) fwd3.
+  Proof.
+    intros t left right fwd1 rrem radd e W [W1 [R1 [K1 [Hl [Hhv [Rm1 [Rn1 [Ad1 [An1 [Ann1 S1]]]]]]]]]].
+    set (m := fwd t) in *. unfold tw_rollback.
     assert (Hcong : forall k a, leq left k = true -> rel leq req m left a = rel leq req m k a).
     { intros k a E. apply rel_congr_k; auto. }
     destruct radd as [a0|].
     - pose proof (Ad1 a0 eq_refl) as Ha0. subst a0.
       destruct (rm_fwd_ok fwd1 left right W1 Hl Hhv) as [m2 [E2 [W2 [R2 S2]]]].
-      assert (Hf2 : fwd2 = m2) by (unfold fwd2; now rewrite E2). clearbody fwd2. subst fwd2.
+      rewrite (rm_fwd_some fwd1 left right m2 E2).
       destruct rrem as [s|].
       + destruct (Rm1 s eq_refl) as [Hsrk [Hsv Hsrel]].
         assert (R2' : forall k a, rel leq req m2 k a = if leq left k then false else rel leq req m k a).
         { intros k a. rewrite R2, R1. destruct (leq left k) eqn:E; cbn; [|now rewrite andb_true_r].
           rewrite Hsrk. cbn. rewrite orb_false_r. now destruct (req right a). }
-        unfold fwd3.
-        destruct (add_item leq req lhash rhash lfmt rk m2 left s) as [m3 rem3 add3|e] eqn:E3.
+        destruct (add_item leq req lhash rhash lfmt rk m2 left s) as [m3 rem3 add3|e3] eqn:E3.
         * destruct (add_item_spec leq req lhash rhash lfmt EL ER HLH rk m2 left s m3 rem3 add3 W2 E3)
             as [W3 [R3 [_ [_ [_ [_ [_ [_ [_ [_ S3]]]]]]]]]].
-          split; [exact W3|split].
+          exists m3. split; [reflexivity|split; [exact W3|split]].
           -- intros k a. rewrite R3. destruct (leq left k) eqn:E.
              ++ rewrite R2', (eq_refl_b _ EL), andb_false_r, orb_false_r.
                 rewrite <- (Hcong k a E). symmetry. apply Hsrel.
@@ -588,7 +651,7 @@ Section TwoWayFacts.
           -- congruence.
           -- destruct rk; discriminate.
           -- rewrite R2', (eq_refl_b _ EL) in E3. discriminate.
-      + unfold fwd3. split; [exact W2|split].
+      + exists m2. split; [reflexivity|split; [exact W2|split]].
         * intros k a. rewrite R2, R1. destruct (leq left k) eqn:E; cbn; [|now rewrite andb_true_r].
           assert (Hnv : rel leq req m left right = false) by (apply Ann1; [discriminate|reflexivity]).
           rewrite <- (Hcong k a E).
@@ -598,7 +661,7 @@ Section TwoWayFacts.
              destruct (rel leq req m left a) eqn:Hra; [|reflexivity].
              rewrite (eq_sym_b _ ER), (Rn1 eq_refl eq_refl a Hra) in Era. discriminate.
         * eapply soc_trans; [exact S1|exact S2].
-    - destruct (An1 eq_refl) as [-> Hv]. unfold fwd3, fwd2. split; [exact W1|split; [|exact S1]].
+    - destruct (An1 eq_refl) as [-> Hv]. exists fwd1. split; [reflexivity|split; [exact W1|split; [|exact S1]]].
       intros k a. rewrite R1. destruct (leq left k) eqn:E; [|reflexivity].
       rewrite <- (Hcong k a E).
       destruct (req right a) eqn:Era; cbn.
@@ -607,6 +670,7 @@ Section TwoWayFacts.
         destruct (rel leq req m left a) eqn:Hra; [|reflexivity].
         rewrite (eq_sym_b _ ER), (Rn1 eq_refl eq_refl a Hra) in Era. discriminate.
   Qed.
+
   Definition ins_rel (t : T) (left : L) (right : R) (l : L) (r : R) : bool :=
     (if leq left l then (req right r || (negb (is_single rk) && fr t left r)) else fr t l r)
     && negb (is_single lk && req right r && negb (leq left l)).
@@ -717,8 +781,8 @@ Section TwoWayFacts.
       split; [eapply soc_trans; eauto|]. split; [eapply soc_trans; eauto|].
       split; [intros _; split; [exact Hl|split; [exact Hr|exact HF]]|].
       split; [intros X; congruence|discriminate].
-    - destruct (insert_rollback (fwd t) left right fwd1 rrem radd Wf A1) as [W3 [R3 S3]].
-      inversion H; subst; clear H.
+    - destruct (insert_rollback t left right fwd1 rrem radd e2 Wf A1) as [fwd3 [E3 [W3 [R3 S3]]]].
+      rewrite E3 in H. inversion H; subst; clear H.
       split; [split; [exact W3|split; [exact Wb|]]|].
       { intros l r. unfold fr. cbn [fwd]. rewrite R3. apply C. }
       split; [exact S3|]. split; [apply soc_refl|].
@@ -736,10 +800,10 @@ Section TwoWayFacts.
     destruct (remove_item leq req lhash rhash rk (fwd t) left right) as [fwd1|] eqn:E1.
     2:{ cbn in H. inversion H; subst; clear H. split; [split; auto|].
         split; [apply soc_refl|split; [apply soc_refl|]]. split; [discriminate|reflexivity]. }
-    destruct (remove_item_spec leq req lhash rhash EL ER HLH rk (fwd t) left right fwd1 Wf E1) as [W1 [R1 [Hl S1]]].
+    destruct (remove_item_spec leq req lhash rhash EL ER rk (fwd t) left right fwd1 Wf E1) as [W1 [R1 [Hl S1]]].
     cbn [negb] in H.
     destruct (remove_item req leq rhash lhash lk (bwd t) right left) as [bwd1|] eqn:E2.
-    - destruct (remove_item_spec req leq rhash lhash ER EL HRH lk (bwd t) right left bwd1 Wb E2) as [W2 [R2 [Hr S2]]].
+    - destruct (remove_item_spec req leq rhash lhash ER EL lk (bwd t) right left bwd1 Wb E2) as [W2 [R2 [Hr S2]]].
       inversion H; subst; clear H.
       split; [split; [exact W1|split; [exact W2|]]|].
       { intros l r. unfold fr, br. cbn [fwd bwd]. rewrite R1, R2. fold (fr t l r). fold (br t r l). rewrite C.
@@ -797,10 +861,10 @@ Section TwoWayFacts.
       + now rewrite andb_true_r.
   Qed.
   Lemma tw_remove_left_inv : forall t left t' o, tw_inv t ->
-    tw_remove_left leq req lhash rhash lk t left = (t', o) -> tw_inv t'.
+    tw_remove_left leq req lhash rhash lk rk t left = (t', o) -> tw_inv t'.
   Proof.
     intros t left t' o [Wf [Wb C]] H. unfold tw_remove_left in H.
-    destruct (remove_key leq lhash (fwd t) left) as [[fwd1 removed]|] eqn:E1.
+    destruct (remove_key leq lhash rk (fwd t) left) as [[fwd1 removed]|] eqn:E1.
     2:{ inversion H; subst. split; auto. }
     destruct (remove_key_spec leq req lhash EL rk (fwd t) left fwd1 removed Wf E1) as [W1 [R1 [Hrem S1]]].
     assert (Hx : forall x, In x removed -> rhash x = true /\ lhash left = true).
@@ -816,10 +880,10 @@ Section TwoWayFacts.
   Qed.
 
   Lemma tw_remove_right_inv : forall t right t' o, tw_inv t ->
-    tw_remove_right leq req lhash rhash rk t right = (t', o) -> tw_inv t'.
+    tw_remove_right leq req lhash rhash lk rk t right = (t', o) -> tw_inv t'.
   Proof.
     intros t right t' o [Wf [Wb C]] H. unfold tw_remove_right in H.
-    destruct (remove_key req rhash (bwd t) right) as [[bwd1 removed]|] eqn:E1.
+    destruct (remove_key req rhash lk (bwd t) right) as [[bwd1 removed]|] eqn:E1.
     2:{ inversion H; subst. split; auto. }
     destruct (remove_key_spec req leq rhash ER lk (bwd t) right bwd1 removed Wb E1) as [W1 [R1 [Hrem S1]]].
     assert (Hx : forall x, In x removed -> lhash x = true /\ rhash right = true).
